@@ -544,6 +544,18 @@ def run_unpriv(chk, bindir, uid=65534):
     evs = [json.loads(l) for l in p.stdout.splitlines() if l.startswith("{")]
     recs = [e for e in evs if e.get("ev") == "unpriv"]
     end = [e for e in evs if e.get("ev") == "unpriv_end"]
+    # permission-bit scenarios: what they left behind is compared by the driver's root parent (the unprivileged
+    # child could not read a 0200 file): a scenario's result is "same" iff no differing path is its target
+    differing = [p for e in evs if e.get("ev") == "unpriv_cmp" for p in e["differing_paths"]]
+    target = {"copy_onto_d200": "/d200", "copy_onto_d600": "/d600", "copy_onto_d644": "/d644", "copy_from_0400_to_new": "/dir700/new",
+              "file_copy_onto_fc200": "/fc200", "write_0200": "/w200", "append_0200": "/a200", "overwrite_0200_no_trunc": "/o200"}
+    for r in recs:
+        if r.get("cmp"):
+            t = target.get(r["scenario"], "/dir300")
+            r["same"] = not any(p == t or p.startswith(t + "/") for p in differing)
+            if not r["same"]:
+                r["note"] = (r.get("note", "") + " differing: %s" % [p for p in differing if p.startswith(t)]).strip()
+    chk.extra["unprivileged_twin_trees_differ_at"] = differing
     if p.returncode != 0 or not end:
         raise core.ToolError("fsops unpriv failed rc=%s: %s" % (p.returncode, p.stderr[-1500:]))
     if end[0]["status"] != 0 or not recs:
@@ -566,6 +578,9 @@ def run_unpriv(chk, bindir, uid=65534):
                         "as uid %d: %s on %s: std::fs %s, tiny_std::fs %s (same result: %s) %s" % (uid, r["op"], r["scenario"], r["std"], r["tiny"], r["same"], r["note"]),
                         {"mode": "unpriv", "record": r})
     chk.extra["unprivileged_scenarios"] = [{k: r[k] for k in ("scenario", "op", "std", "tiny", "same")} for r in recs]
+    if differing and all(r["same"] for r in recs):
+        chk.violate({"op": "unprivileged", "expected": "same_tree", "got": "differs", "detail": "unprivileged_uid:twin_trees"},
+                    "as uid %d the twin trees (std::fs vs tiny_std::fs) differ at %s" % (uid, differing[:10]), {"mode": "unpriv", "differing": differing})
 
 
 def run_bigcopy(chk, bindir):
